@@ -229,11 +229,11 @@ type wcall struct {
 
 type callRes struct {
 	Op    string `json:"op"`
-	N     int    `json:"n"`    // bytes requested (write) or read (readfrom)
-	Ret   int    `json:"ret"`  // returned count
-	Err   string `json:"err"`  // error class
-	Sink  int    `json:"sink"` // sink length after the call
-	St    string `json:"st"`   // lifecycle state after the call (verif accessor)
+	N     int    `json:"n"`     // bytes requested (write) or read (readfrom)
+	Ret   int    `json:"ret"`   // returned count
+	Err   string `json:"err"`   // error class
+	Sink  int    `json:"sink"`  // sink length after the call
+	St    string `json:"st"`    // lifecycle state after the call (verif accessor)
 	Fails int    `json:"fails"` // sink calls that have failed so far (cumulative)
 	Calls int    `json:"calls"`
 	// Flush on a sequential Writer: decoded length of the sink so far, and whether it equals
@@ -390,6 +390,7 @@ type rcfg struct {
 	PreBuf   int `json:"preBuf,omitempty"`
 	// PreFile: the earlier life reads this other stream to its end (io.Copy) before Reset(source)
 	PreFile string `json:"preFile,omitempty"`
+	PrePart int    `json:"prePart,omitempty"`
 }
 
 type robs struct {
@@ -503,7 +504,23 @@ func runReaderDelay(data []byte, cfg rcfg, watchdog time.Duration, outLimit int,
 			}
 		}
 		if cfg.PreFile != "" {
-			_, _ = io.Copy(io.Discard, zr)
+			if cfg.PrePart > 0 {
+				// ... or only its first PrePart bytes, through Read (the stream is abandoned in the middle of a block)
+				pbuf := make([]byte, 1000)
+				for got := 0; got < cfg.PrePart; {
+					want := cfg.PrePart - got
+					if want > len(pbuf) {
+						want = len(pbuf)
+					}
+					n, err := zr.Read(pbuf[:want])
+					got += n
+					if err != nil || n == 0 {
+						break
+					}
+				}
+			} else {
+				_, _ = io.Copy(io.Discard, zr)
+			}
 			zr.Reset(src)
 		}
 		if cfg.PreBytes > 0 {
